@@ -8,7 +8,7 @@
 (***************************************************************************)
 EXTENDS Verifier, Json
 
-CONSTANTS Emit, Contents, MaxList, Others
+CONSTANTS Emit, Contents, MaxList, Others, BlobOnly
 VARIABLE s
 
 EnvOK      == [parse |-> TRUE, sigValid |-> TRUE, ptype |-> "notary", pjson |-> TRUE]
@@ -27,9 +27,10 @@ Mk(st, lvl) ==
 
 (* blob verification: the statement is chosen by name; under a name no statement has, nothing is trusted - although the
    document's GLOBAL statement lists the very same stores (single-store lists only) *)
-BlobSpace == {[Mk(st, lvl) EXCEPT !.api = "VerifyBlob", !.sel = sl] : st \in {x \in StoreSpace : Len(x.listed) = 1 /\ x.other = ""}, lvl \in Levels, sl \in {"ok", "nopolicy"}}
-InputSpace == {Mk(st, lvl) : st \in StoreSpace, lvl \in Levels} \cup BlobSpace
-
+BlobSpace == {[Mk([scheme |-> sc, contents |-> cont, listed |-> <<r>>, other |-> ""], lvl) EXCEPT !.api = "VerifyBlob", !.sel = sl] :
+                 sc \in {"x509", "sa"}, cont \in [StoreRefs -> Contents], r \in StoreRefs, lvl \in Levels, sl \in {"ok", "nopolicy"}}
+(* two instances (constant BlobOnly): the union of the two large sets costs TLC a minute of normalisation *)
+InputSpace == IF BlobOnly THEN BlobSpace ELSE {Mk(st, lvl) : st \in StoreSpace, lvl \in Levels}
 Init == s \in {Start(in) : in \in InputSpace}
 Next == s.pc # "done" /\ s' = StepFn(s)
 Spec == Init /\ [][Next]_s
